@@ -240,6 +240,17 @@ Theorem C34_inet_ntoa_aton : forall u, 0 <= u < 2 ^ 31 ->
 Proof. exact inet_ntoa_aton. Qed.
 Print Assumptions C34_inet_ntoa_aton.
 
+(* two-argument LOCATE on arbitrary (multi-byte) strings: the first byte offset of the lower-cased substring *)
+Theorem C34_locate_first_byte_occurrence : forall sub s : list N,
+  utf8 s <> [] ->
+  let bs := utf8 (to_lower s) in let bsub := utf8 (to_lower sub) in
+  exists p, locate_core sub s 1 = Val p /\
+    ((p = 0 /\ forall j, 0 <= j <= len bs -> is_prefix N.eqb bsub (drop j bs) = false) \/
+     (1 <= p <= len bs + 1 /\ is_prefix N.eqb bsub (drop (p - 1) bs) = true /\
+      forall j, 0 <= j < p - 1 -> is_prefix N.eqb bsub (drop j bs) = false)).
+Proof. exact locate_first_byte_occurrence. Qed.
+Print Assumptions C34_locate_first_byte_occurrence.
+
 (* non-vacuity: concrete calls *)
 Example C34_nonvacuous :
   substring_core [104; 233; 108; 108; 111]%N (-3) (Some 2) = Val [108; 108]%N /\
